@@ -492,6 +492,146 @@ def d6(ctx, prog):
     return 1
 
 
+def operand_label(prog, f, e, env, depth=0):
+    """which frame's points an expression is made of: {'1'}, {'2'}, both or none"""
+    lab = lambda x: operand_label(prog, f, x, env, depth)     # noqa: E731
+    if isinstance(e, ast.Name):
+        if e.id in env:
+            return env[e.id]
+        if e.id in f.params and e.id.endswith('_1'):
+            return {'1'}
+        if e.id in f.params and e.id.endswith('_2'):
+            return {'2'}
+        return set()
+    if isinstance(e, ast.Attribute):
+        if norm(e) == 'self.frame_1':
+            return {'1'}
+        if norm(e) == 'self.frame_2':
+            return {'2'}
+        if e.attr in ('shape', 'ndim', 'dtype', 'size'):
+            return set()
+        return lab(e.value)
+    if isinstance(e, ast.Subscript):
+        return lab(e.value) | lab(e.slice)
+    if isinstance(e, ast.Slice):
+        return set()           # bounds select *which* points of the operand, not which operand
+    if isinstance(e, ast.Tuple):
+        out = set()
+        for x in e.elts:
+            out |= lab(x)
+        return out
+    if isinstance(e, ast.IfExp):
+        return lab(e.body) | lab(e.orelse)
+    if isinstance(e, (ast.GeneratorExp, ast.ListComp)):
+        return lab(e.elt)
+    if isinstance(e, ast.Call):
+        if isinstance(e.func, ast.Attribute) and norm(e.func.value) == 'self' and f.cls is not None and depth < 2:
+            g = prog.resolve_method(f.cls, e.func.attr)
+            if g is not None and g.name != '_operation':
+                bind = {}
+                ps = [p_ for p_ in g.params if p_ != 'self']
+                for p_, a_ in zip(ps, e.args):
+                    bind[p_] = lab(a_)
+                for k_ in e.keywords:
+                    if k_.arg:
+                        bind[k_.arg] = lab(k_.value)
+                genv = operand_env(prog, g, bind, depth + 1)
+                out = set()
+                for r in ast.walk(g.node):
+                    if isinstance(r, ast.Return) and r.value is not None:
+                        out |= operand_label(prog, g, r.value, genv, depth + 1)
+                return out
+        if isinstance(e.func, ast.Attribute) and e.func.attr in ('astype', 'copy', 'transpose', 'swapaxes', 'reshape', 'squeeze') and norm(e.func.value) not in ('_np', 'np', 'numpy'):
+            return lab(e.func.value)
+        if isinstance(e.func, ast.Name) and e.func.id in ('enumerate', 'list', 'tuple', 'iter', 'reversed') and e.args:
+            return lab(e.args[0])
+        if isinstance(e.func, ast.Name) and e.func.id in ('range', 'len', 'min', 'max', 'sum', 'int'):
+            return set()
+        out = set()
+        for x in e.args:
+            out |= lab(x)
+        return out
+    if isinstance(e, ast.BinOp):
+        return lab(e.left) | lab(e.right)
+    return set()
+
+
+def operand_env(prog, f, bind, depth=0):
+    env = dict(bind)
+
+    def store(t, v):
+        if isinstance(t, ast.Name):
+            env[t.id] = env.get(t.id, set()) | v
+        elif isinstance(t, (ast.Tuple, ast.List)):
+            for x in t.elts:
+                store(x, v)
+    for _ in range(2):
+        for st in ast.walk(f.node):
+            if isinstance(st, ast.Assign):
+                v = operand_label(prog, f, st.value, env, depth)
+                for t in st.targets:
+                    store(t, v)
+            elif isinstance(st, ast.For):
+                v = operand_label(prog, f, st.iter, env, depth)
+                if isinstance(st.iter, ast.Call) and isinstance(st.iter.func, ast.Name) and st.iter.func.id == 'enumerate' and isinstance(st.target, ast.Tuple) and len(st.target.elts) == 2:
+                    store(st.target.elts[1], v)      # the counter carries no points
+                elif isinstance(st.iter, ast.Call) and isinstance(st.iter.func, ast.Name) and st.iter.func.id == 'range':
+                    pass
+                else:
+                    store(st.target, v)
+    return env
+
+
+def d7(ctx, prog):
+    """operand order of the combinations: wherever a combination class applies its operation, the first operand is taken from
+    the points of frame_1 (chunk_1) and the second from those of frame_2 (chunk_2) - for a non-symmetric operation (Difference)
+    the other order returns the negated value.  Forward provenance through locals, slices, transpositions and casts."""
+    HO = 'scared.preprocesses.high_order._base'
+    n = 0
+    for f in prog.funcs_in(HO):
+        if f.cls is None:
+            continue
+        calls = [c for c in ast.walk(f.node) if isinstance(c, ast.Call) and norm(c.func) == 'self._operation']
+        if not calls:
+            continue
+        env = operand_env(prog, f, {})
+        lab = lambda e: operand_label(prog, f, e, env)     # noqa: E731
+        for c in calls:
+            n += 1
+            key = f'{f.key}::{norm(c)[:70]}'
+            if len(c.args) != 2 or c.keywords:
+                ctx.undecided('C18-D7', key, 'operation not called with two positional operands', f.where(c))
+                continue
+            a, b = lab(c.args[0]), lab(c.args[1])
+            if a == b and a:
+                # both operands are points of the same frame (distance mode): the first is the single point i, the second the
+                # points i.. that follow it
+                ldefs = astutil.local_defs(f.node)
+
+                def is_point(x):
+                    x = astutil.expand_locals(x, ldefs)
+                    while isinstance(x, ast.Attribute) and x.attr == 'T' or (isinstance(x, ast.Call) and isinstance(x.func, ast.Attribute) and x.func.attr in ('astype', 'copy', 'transpose')):
+                        x = x.value if isinstance(x, ast.Attribute) else x.func.value
+                    if isinstance(x, ast.Subscript) and isinstance(x.slice, ast.Tuple) and len(x.slice.elts) == 2:
+                        return not isinstance(x.slice.elts[1], ast.Slice)
+                    return None
+                p0, p1 = is_point(c.args[0]), is_point(c.args[1])
+                if p0 is True and p1 is not True:
+                    ctx.ok('C18-D7', key, 'same frame: first operand is the point i, second the points that follow it', f.where(c))
+                elif p1 is True and p0 is not True:
+                    ctx.fail('C18-D7', key, f'`{norm(c)[:60]}` applies the operation to (later points, point i): a non-symmetric operation (Difference) returns the negated value in this mode only', f.where(c))
+                else:
+                    ctx.undecided('C18-D7', key, 'operand order within one frame not derivable', f.where(c))
+            elif a == {'1'} and b == {'2'}:
+                ctx.ok('C18-D7', key, 'first operand from frame_1, second from frame_2', f.where(c))
+            elif a == {'2'} and b == {'1'}:
+                ctx.fail('C18-D7', key, f'`{norm(c)[:60]}` applies the operation to (point of frame_2, point of frame_1): a non-symmetric operation (Difference) returns x[j] - x[i], the negated '
+                         f'value, in this mode only', f.where(c))
+            else:
+                ctx.undecided('C18-D7', key, f'operand provenance not derivable (first {sorted(a)}, second {sorted(b)})', f.where(c))
+    return n
+
+
 def run(ctx, prog):
     ctx.rule('C18-D1', 'arithmetic on traces-derived values only after promotion (astype(join) / dtype=join / float partner computed with the join / FFT); helpers judged per call site')
     ctx.rule('C18-D2', 'the promotion dtype is numpy.result_type/promote_types of the traces dtype and the precision, never builtin max()')
@@ -509,5 +649,7 @@ def run(ctx, prog):
     ctx.floor('frame configuration stores', d5(ctx, prog), 3)
     ctx.rule('C18-D6', 'the switch between the one-frame pair set (i <= j) and frame_1 x frame_2 is the None-test of the caller\'s frame_2 argument, taken before defaulting')
     d6(ctx, prog)
+    ctx.rule('C18-D7', 'operand order: the combination operation receives (point of frame_1, point of frame_2) in every mode')
+    ctx.floor('combination operation call sites', d7(ctx, prog), 3)
     ctx.floor('preprocess entry points', len(eps), 20)
     ctx.floor('promotion dtype computations', n2, 5)
